@@ -20,7 +20,7 @@ func main() {
 	chain.Init(2000, "", false, 20, 1)
 	run := vh.Start("c17", "finder: real Finder.binarySearch with a requester answering from the remote chain for EVERY local/remote chain pair of at most 40 blocks each "+
 		"(every fork point incl. nothing shared, every pair of lengths), random windows/non-monotone answers/errors/missing answers, and the whole finder goroutine "+
-		"(lightscan+fullscan) on real chain DBs with the real getAnchorsNew/findAncestor incl. chains longer than the anchor window; "+
+		"(lightscan+fullscan) on real chain DBs with the real getAnchorsNew/findAncestor incl. chains longer than the anchor window; the finder goroutine on LONG chains (up to 3000/5000 blocks, full anchor list) with the fork point at, next to and between every pair of consecutive anchors, remote shorter/equal/longer, checking also that the anchor list handed to the peer covers the search bound; "+
 		"hash fetcher: the real goroutine fed honest, short, long, stale, wrong-echo, error and empty replies; "+
 		"fetcher/processor: real BlockFetcher+BlockProcessor stepped synchronously (schedule, checkTaskTimeout with a virtual clock, blockProcessor.run) on generated "+
 		"orders of honest/erroneous/short/long/swapped/foreign/wrong-peer/duplicated/dropped chunk replies and honest/refused/mismatching/duplicated/unsolicited AddBlock replies, "+
@@ -31,6 +31,7 @@ func main() {
 
 	finderExhaustive(run, 40)
 	finderRandom(run, run.Pick(1500, 12000))
+	finderLong(run)
 	finderFlows(run, run.Pick(30, 200))
 	hfSessions(run, run.Pick(150, 1500))
 	fetchSessions(run, run.Pick(500, 6000))
